@@ -262,8 +262,13 @@ fn record_with_faults(cell: &Cell, rep: &mut Report) {
             continue;
         }
         for errno in [libc::ESTALE, libc::EIO, libc::EACCES, libc::ENOENT] {
-            let suffix = format!("/r{}/{}", lvl - w, if cell.readers[lvl - w] == Front::Plain { "key".to_string() } else {
-                format!("{}/key", ops::shard_dir_name(if cell.contents[lvl] >= 3 { 2 } else { 1 }))
+            let suffix = format!("/r{}/{}", lvl - w, match cell.readers[lvl - w] {
+                Front::Plain => "key".to_string(),
+                Front::Sharded(n) => {
+                    let k = the_key();
+                    let (a, b) = ops::expected_shards(k.h1, k.h2, n);
+                    format!("{}/key", ops::shard_dir_name(if cell.contents[lvl] >= 3 { b } else { a }))
+                }
             });
             let ctl = std::sync::Arc::new(FailOpensOf { suffix, errno });
             CONTROLLER.with(|c| *c.borrow_mut() = Some(ctl as std::sync::Arc<dyn shim::Controller>));
@@ -278,6 +283,30 @@ fn record_with_faults(cell: &Cell, rep: &mut Report) {
                 }
             }
             rep.count("faulted_probe_cells", 1);
+        }
+    }
+}
+
+/// Stacks without a write side: whatever call of ensure / get_or_update fails (the scratch file in the system's temporary
+/// directory included), no fallback may reach for a read-only level's directories.
+fn record_with_any_fault(cell: &Cell, rep: &mut Report) {
+    use crate::props::c18::{plausible, FailAt};
+    let base = run_cell(cell);
+    for (k, ev) in base.trace.iter().enumerate() {
+        for a in plausible(ev, false).into_iter().take(2) {
+            let ctl = std::sync::Arc::new(FailAt { faults: vec![(k as u64, a)], kinds: vec![Some(ev.kind)], n: std::sync::atomic::AtomicU64::new(0), hit: std::sync::Mutex::new(vec![]) });
+            CONTROLLER.with(|c| *c.borrow_mut() = Some(ctl as std::sync::Arc<dyn shim::Controller>));
+            let before = rep.violations.len();
+            record(cell, rep);
+            CONTROLLER.with(|c| *c.borrow_mut() = None);
+            for v in rep.violations.iter_mut().skip(before) {
+                v.signature = format!("{}-under-fault", v.signature);
+                v.text = format!("[call {} ({}) failing {:?}] {}", k, ev.func, a, v.text);
+                if let Some(o) = v.case.as_object_mut() {
+                    o.insert("any_fault".into(), json!(true));
+                }
+            }
+            rep.count("readers_only_fault_cells", 1);
         }
     }
 }
@@ -307,7 +336,8 @@ pub fn run(_tier: Tier, shard: Shard, rep: &mut Report) {
         advancing on a found entry; missing roots stay missing. Non-trivial = a read-only level holds a copy / a degenerate root \
         or unusual name is involved. The lookup/touch cells are repeated with every planted copy stamped one day ahead of the local \
         clock (entries written by a host whose clock runs ahead), and with the probes (open/stat) of each read-only copy answered \
-        ESTALE, EIO, EACCES or ENOENT; with planted values of 96 KiB (promotion of large hits); and with every periodic trigger scripted to fire during the operation while two-hour-old debris \
+        ESTALE, EIO, EACCES or ENOENT; for stacks without a write side every call of ensure/get_or_update failing in turn (the scratch \
+        file in the system's temporary directory included); with planted values of 96 KiB (promotion of large hits); and with every periodic trigger scripted to fire during the operation while two-hour-old debris \
         lies in each level's .kismet_temp."
         .into();
     rep.assumptions = vec![
@@ -391,6 +421,13 @@ pub fn run(_tier: Tier, shard: Shard, rep: &mut Report) {
         }
         record_with_faults(cell, rep);
     }
+    for cell in all.iter().filter(|c| !c.has_writer() && matches!(c.op, MOp::Ensure | MOp::Gou(_)) && c.readers.len() <= 2 && c.pop <= 1) {
+        no += 1;
+        if !shard.mine(no) {
+            continue;
+        }
+        record_with_any_fault(cell, rep);
+    }
     for case in ro_cases() {
         no += 1;
         if !shard.mine(no) {
@@ -410,6 +447,8 @@ pub fn replay(case: &Value, rep: &mut Report) {
         record_ro(&RoCase::from_json(case), rep);
     } else if case.get("fault_level").is_some() {
         record_with_faults(&Cell::from_json(case), rep);
+    } else if case.get("any_fault").is_some() {
+        record_with_any_fault(&Cell::from_json(case), rep);
     } else {
         let future = case.get("future_dated").and_then(|v| v.as_bool()).unwrap_or(false);
         if case.get("planted_large").and_then(|v| v.as_bool()).unwrap_or(false) {
